@@ -241,3 +241,120 @@ func c20Parse(args []string) error {
 	}
 	return w.Close()
 }
+
+// ---- generated parsers that trim trailing whitespace (fixWhitespace) with injected comment tokens
+
+func init() { register("c20-gen", c20Gen) }
+
+// c20-gen <mod-dir> <out.ndjson> <texts-per-grammar>
+func c20Gen(args []string) error {
+	nt, _ := strconv.Atoi(args[2])
+	seed, _ := strconv.ParseInt(os.Getenv("VERIF_SEED"), 10, 64)
+	r := rand.New(rand.NewSource(seed*2038074743 + 20))
+	type variant struct{ decl, extra string }
+	var variants []variant
+	for _, mark := range []string{"", " .afterDecl"} {
+		variants = append(variants,
+			variant{"tl Name Suffix" + mark, "Suffix:\n    tc Name | %empty ;\n"},
+			variant{"tl Name Suffix Tail" + mark, "Suffix:\n    tc Name | %empty ;\n\nTail:\n    ts | %empty ;\n"},
+			variant{"tl Name (tc Name)?" + mark, ""},
+			variant{"tl Name Names" + mark, "Names:\n    Names Name | %empty ;\n"},
+			variant{"tl Name" + mark + " Suffix", "Suffix:\n    tc Name | %empty ;\n"},
+			variant{"tl (Name Suffix -> Pair)" + mark + " Tail", "Suffix:\n    tc Name | %empty ;\n\nTail:\n    ts | %empty ;\n"},
+		)
+	}
+	var items []*evItem
+	for i, v := range variants {
+		pkg := fmt.Sprintf("w%d", i)
+		tm := fmt.Sprintf("language %s(go);\n\npackage = \"rt/%s\"\neventBased = true\nfixWhitespace = true\n\n:: lexer\n\nWS: /[ \\n]+/ (space)\nComment: /#[a-z]*/ (space)\n"+
+			"tl: /l/\ntn: /n/\ntc: /c/\nts: /;/\nto: /o/\n\n:: parser\n\n%%inject Comment -> Comment;\n\n%%input S;\n\nS -> Root:\n    Item+ ;\n\nItem:\n    Decl | Outer ;\n\n"+
+			"Outer -> Outer:\n    to Decl ;\n\nDecl -> Decl:\n    %s ;\n\nName -> Name:\n    tn ;\n\n%s", pkg, pkg, v.decl, v.extra) + c02sAdapter
+		it := &evItem{Pkg: pkg, TM: tm}
+		for k := 0; k < nt; k++ {
+			var sb strings.Builder
+			sp := func() {
+				switch r.Intn(5) {
+				case 0:
+					sb.WriteString(" #x ")
+				case 1:
+					sb.WriteString("\n#y\n")
+				case 2:
+					sb.WriteString("  ")
+				default:
+					sb.WriteString(" ")
+				}
+			}
+			if r.Intn(3) == 0 {
+				sp()
+			}
+			for d := 0; d < 1+r.Intn(4); d++ {
+				if r.Intn(4) == 0 {
+					sb.WriteString("o")
+					sp()
+				}
+				sb.WriteString("l")
+				sp()
+				sb.WriteString("n")
+				sp()
+				body := v.decl + v.extra
+				if strings.Contains(body, "tc") && r.Intn(2) == 0 {
+					sb.WriteString("c")
+					sp()
+					sb.WriteString("n")
+					sp()
+				}
+				if strings.Contains(body, "Names") {
+					for q := 0; q < r.Intn(3); q++ {
+						sb.WriteString("n")
+						sp()
+					}
+				}
+				if strings.Contains(body, "ts") && r.Intn(2) == 0 {
+					sb.WriteString(";")
+					sp()
+				}
+			}
+			it.Texts = append(it.Texts, sb.String())
+		}
+		items = append(items, it)
+	}
+	if err := evPipeline(args[0], items); err != nil {
+		return err
+	}
+	w, err := newNDWriter(args[1])
+	if err != nil {
+		return err
+	}
+	id := 0
+	for i, it := range items {
+		if it.GenErr != "" {
+			c := &c20Case{ID: id, Kind: "parse", Parser: "generated-fixws", Origin: variants[i].decl, Crash: "generation: " + it.GenErr, Ev: [][3]int{}, Parent: []int{}, Children: [][]int{}}
+			id++
+			if err := w.Write(c); err != nil {
+				return err
+			}
+			continue
+		}
+		names := map[string]int{}
+		for k, text := range it.Texts {
+			c := &c20Case{ID: id, Kind: "parse", Parser: "generated-fixws", Origin: variants[i].decl, Len: len(text), Ev: [][3]int{}, Parent: []int{}, Children: [][]int{}, TextB64: b64(text)}
+			id++
+			if it.Errs[k] != "" {
+				c.Crash = "sentence rejected: " + it.Errs[k]
+			}
+			for _, ev := range it.Events[k] {
+				f := strings.Fields(ev)
+				if _, ok := names[f[0]]; !ok {
+					names[f[0]] = len(names) + 1
+				}
+				off, _ := strconv.Atoi(f[1])
+				end, _ := strconv.Atoi(f[2])
+				c.Ev = append(c.Ev, [3]int{names[f[0]], off, end})
+			}
+			if err := w.Write(c); err != nil {
+				return err
+			}
+		}
+	}
+	return w.Close()
+}
